@@ -35,6 +35,15 @@ ASSUMPTIONS = [
 
 def run(ctx: Ctx):
     model = ctx.model
+    from .common_node import names_resolve
+    names_resolve(ctx, "C06-RN")
+    from . import c11 as _c11
+    ctx.include(_c11.run, {"C11-R5"}, "C06-R5d",
+                "the timer pass of the I/O loop covers every connection it does not close (the "
+                "CER / CEA deadline is checked there)", floor=1,
+                constructs=lambda c: c.startswith("_handle_connections:timer-pass"))
+    from .recvmsg import received_messages_reach_dispatch
+    received_messages_reach_dispatch(ctx, "C06-R7d", answers=True, requests=False)
     peer_mod = model.module("node.peer")
     consts = model.module("message.constants")
     P = lambda n: model.fold_name(peer_mod, n)
